@@ -24,6 +24,9 @@ def ty_range_str(P, ty):
 
 # result ranges of workspace callees established elsewhere (a checked summary); such callees stay opaque in analyse_fn
 CALL_RANGES = {}
+# ADTs that wrap a `Range<u8>` in a private field and are only ever built with a constant range (established by the caller from the
+# constructor facts): {adt key: (field name, lo, hi)}; the items that range yields lie in [lo, hi)
+WRAPPED_RANGES = {}
 # iterator types whose `for` loops have a known trip bound (a set of squares has at most 64 members; C18 shows next() removes one)
 TRIP_BOUNDS = {"chess_bitboard::BitBoardIter": 64, "chess_bitboard::pos::AllPosIter": 64}
 
@@ -234,6 +237,20 @@ class Ranges:
                     return (ir[0] + d[0], ir[1] + d[1])
             return None
         if k == "vfield":
+            # Some-payload of Range::<u8>::{next, nth, next_back, nth_back} on the private range of a wrapper that is only built with lo..hi
+            x = t[1]
+            if t[2] == "Some" and x[0] == "app" and "core::ops::range::Range<" in x[1] and x[2]:
+                a0 = x[2][0]
+                owner = fld_ = None
+                if a0[0] == "refv" and a0[1][0] == "field" and a0[1][1][0] == "obj" and a0[1][1][1][0] == "param":
+                    owner, fld_ = a0[1][1][1], a0[1][2]
+                elif a0[0] == "ref" and a0[1][0] == "ext" and a0[1][1][0] == "param" and len(a0[1]) > 2 and a0[1][2] and a0[1][2][0][0] == "f":
+                    owner, fld_ = a0[1][1], a0[1][2][0][2]
+                if owner is not None:
+                    ty = (self.ptypes.get(owner) or "").lstrip("&").replace("mut ", "").strip()
+                    w = WRAPPED_RANGES.get(ty)
+                    if w and w[0] == fld_:
+                        return (w[1], w[2] - 1)
             return None
         return None
 
